@@ -1,3 +1,52 @@
+import PicoProofs.EncRefine
+import PicoProofs.EncProg
 import PicoProofs.Tie
-import PicoModel.WellTyped
-/- C01: theorems are added as the proof modules land -/
+/-
+C01 — Marshal output is valid protobuf carrying exactly the message's values.
+
+`Gen2.marshal` is the statement-by-statement model of the generated `Encode` methods (all field
+kinds and shapes, map codecs and picoconv casts included) over the regenerated Go expressions;
+`Spec.specEnc` is the canonical protobuf encoder written from the specification with closed-form
+arithmetic. The theorem holds for EVERY schema and EVERY well-typed value (all 2^32 / 2^64 scalar
+values, any depth, any size), nil pointers, nil slices and nil maps included (`wtMsg` admits them).
+That the reference implementation parses `specEnc` back to the same values is the specification's
+round trip (C03) — plus, on every run, the reference column of correspondence stream M.
+-/
+namespace Pico.Props
+open Pico
+
+/-- Marshal = the canonical specification encoder -/
+theorem C01_marshal_is_spec (S : Schema) (id : Nat) (v : Val) (h : wtMsg S false id v = true) :
+    Gen2.marshal S id v = Spec.specEnc S id v := marshal_eq_spec S id v h
+
+/-- Marshal never panics or errors: the abstract encoder is a total function, and at the Go-slice
+level every encoder program runs to completion on every buffer (no out-of-range slice, no
+out-of-window PutUvarint) -/
+theorem C01_marshal_never_panics (oracle : Nat → Bytes) (prog : List EncLow.LOp) (h : EncLow.sizesOk prog) :
+    ∃ t, EncLow.marshalLow oracle prog = .ok ⟨EncLow.absOps prog, t⟩ := by
+  obtain ⟨t, ht⟩ := EncLow.runOps_appends oracle prog h ⟨[], []⟩
+  exact ⟨t, by simpa [EncLow.marshalLow] using ht⟩
+
+/-- per field: every singular writer emits the specification's tag and value, or nothing for the
+default of a field without presence -/
+theorem C01_scalar_field (always : Bool) (k : Scalar) (f : Nat) (v : Val) (h : scalarOk k v = true) :
+    Enc.writeSingle always k (f : Int) v.toSVal
+      = if !always && Spec.isZeroVal k v.toSVal then [] else Spec.field1 f k v.toSVal :=
+  writeSingle_eq always k f v h
+
+/-- repeated scalars are packed (string/bytes: one record per element) -/
+theorem C01_repeated_field (k : Scalar) (f : Nat) (vs : List Val) (h : vs.all (scalarOk k) = true) :
+    Enc.writeRepeated false k (f : Int) (vs.map Val.toSVal)
+      = if vs.isEmpty then [] else Spec.packed k f (vs.map Val.toSVal) := writeRepeated_eq k f vs h
+
+/-- all 180 map codecs: one `{1:key, 2:value}` entry per element, zero key/value omitted -/
+theorem C01_map_field (k v : Scalar) (f : Nat) (es : List (Val × Val))
+    (h : es.all (fun e => scalarOk k e.1 && scalarOk v e.2) = true) :
+    Gen2.mapEncode k v (f : Int) es = Spec.mapEntries k v f es := mapEncode_eq k v f es h
+
+/-- TIE: writers, readers and map codecs have the modelled shapes -/
+theorem C01_tables : Tie.sameRows Gen.encRows Tie.expectedEncRows = true ∧
+    (Tie.sameRows Gen.mapRows Tie.expectedMapRows = true ∧ Gen.mapExtraFuncs = []) :=
+  ⟨Tie.encoder_table_expected, Tie.map_table_expected⟩
+
+end Pico.Props
